@@ -587,7 +587,8 @@ def build_objects(doc: Doc, style: str = "xtce"):
         cls = getattr(parameter_types, pt.kind + "ParameterType")
         if pt.kind == "Enumerated":
             if isinstance(pt.enc, StrEnc):
-                enum = {str(v).encode(pt.enc.charset): lab for v, lab in pt.enum}
+                from mc.ref.interp import codec_for
+                enum = {str(v).encode(codec_for(pt.enc)): lab for v, lab in pt.enum}
             elif isinstance(pt.enc, FloatEnc):
                 enum = {float(v): lab for v, lab in pt.enum}
             else:
